@@ -97,6 +97,9 @@ type dialResult struct {
 	done chan struct{}
 	conn *wsConnection
 	err  error
+	// dialerGone is set when the dial failed because the context of the caller
+	// that started it ended. Waiters with a live context must not inherit that error.
+	dialerGone bool
 }
 
 // NewWSTransport creates a new WSTransport. Connections are not closed when ctx
@@ -208,6 +211,10 @@ func (t *WSTransport) getOrDial(ctx context.Context, opts common.Options) (*wsCo
 		}
 
 		if result.err != nil {
+			if result.dialerGone && ctx.Err() == nil {
+				// The caller that was dialling went away; dial (or join a dial) again.
+				return t.getOrDial(ctx, opts)
+			}
 			return nil, result.err
 		}
 
@@ -220,10 +227,8 @@ func (t *WSTransport) getOrDial(ctx context.Context, opts common.Options) (*wsCo
 
 	conn, err := t.dial(ctx, key, opts)
 
-	result.conn = conn
-	result.err = err
-	close(result.done)
-
+	// Publish the outcome in the maps before waking the waiters, so that a waiter
+	// that retries never finds this finished dial again.
 	t.mu.Lock()
 	delete(t.dialing, key)
 
@@ -231,6 +236,11 @@ func (t *WSTransport) getOrDial(ctx context.Context, opts common.Options) (*wsCo
 		t.conns[key] = conn
 	}
 	t.mu.Unlock()
+
+	result.conn = conn
+	result.err = err
+	result.dialerGone = err != nil && ctx.Err() != nil
+	close(result.done)
 
 	return conn, err
 }
